@@ -596,9 +596,10 @@ public:
     return *this;
   }
 
+  // return true if e belongs to the set
   bool at(const element_t &e) const{
     dual_set_domain_t s(e);
-    return (s <= *this);
+    return (*this <= s);
   }
   
   std::size_t size() { return m_set.size(); }
